@@ -32,7 +32,7 @@ Definition within (lo hi : Z) (d : list (Z * Z)) : bool :=
 Definition obs := (outcome rv * list (Z * Z) * list (Z * Z))%type.
 
 (* c applied to the buffer occupying [base, base + cap) of the root region returned r and changed d0 *)
-Fixpoint spec_ok (scap : Z) (mem0 : memory) (base cap : Z) (c : call) (r : rv) (d0 : list (Z * Z)) : bool :=
+Fixpoint spec_ok (scap : Z) (srcm mem0 : memory) (base cap : Z) (c : call) (r : rv) (d0 : list (Z * Z)) : bool :=
   let nums := fst r in
   let bytes := snd r in
   let reads off len :=
@@ -45,7 +45,7 @@ Fixpoint spec_ok (scap : Z) (mem0 : memory) (base cap : Z) (c : call) (r : rv) (
      inside cap (off + 4) l && list_eqb bytes (map mem0 (zseq (base + off + 4) l))) && no_change d0 in
   match c with
   | CNop => list_eqb nums [base; cap] && no_change d0
-  | CView off len c' => inside cap off len && spec_ok scap mem0 (base + off) len c' r d0
+  | CView off len c' => inside cap off len && spec_ok scap srcm mem0 (base + off) len c' r d0
   | CGet sz pos | CGetVolatile sz pos | CAsRef sz pos | CGetBytes sz pos => reads pos sz
   | COverlay sz pos => exposes pos sz
   | CPut sz pos | CPutOrdered sz pos => writes pos sz
@@ -59,7 +59,7 @@ Fixpoint spec_ok (scap : Z) (mem0 : memory) (base cap : Z) (c : call) (r : rv) (
   | CWrite n => writes 0 n
   | CCopyFrom off soff len =>
       writes off len && inside scap soff len &&
-      forallb (fun p => snd p =? src_byte (soff + (fst p - (base + off)))) d0
+      forallb (fun p => snd p =? srcm (soff + (fst p - (base + off)))) d0
   | CAsSlice => list_eqb nums [base; cap] && list_eqb bytes (map mem0 (zseq base cap)) && no_change d0
   | CSubSlice idx len => reads idx len
   | CGetString off => string_at off
@@ -83,7 +83,7 @@ Definition holds_call (rcap scap p w : Z) (c : call) (o : obs) : bool :=
   no_change d1 &&
   match res with
   | Panic => no_change d0
-  | Ok r => spec_ok scap (planted p w) 0 rcap c r d0
+  | Ok r => spec_ok scap src_byte (planted p w) 0 rcap c r d0
   | _ => false
   end.
 
